@@ -152,14 +152,15 @@ _ST = ("ref", "State")
 _OPR = ("ref", "Operator")
 _app = z3.Function("op_applicable", I, I, B)          # the operator's precondition holds in the state (C02, bounded)
 _HK = {"op_applicable": lambda interp, st, a: Val(_app(a[0].t, a[1].t), "bool")}
+from contracts.c14 import CONTRACTS as _C14_CONTRACTS, STATE_WF as _STATE_WF
 CONTRACTS = {
     OP + "ground": dict(prop="C03", assumed=True, params={"self": _OPR}, returns="none", ensures=["self.grounded"], raises={"KeyError": "True"},
                         modifies=["Operator.grounded_preconditions[self]", "Operator.grounded_effects[self]", "Operator.grounded[self]"]),
     OP + "is_applicable": dict(prop="C03", assumed=True, params={"self": _OPR, "state": _ST}, returns="bool",
                                ensures=["result == op_applicable(self, state)"], raises={"KeyError": "True"},
                                modifies=["Operator.grounded_preconditions[self]", "Operator.grounded_effects[self]", "Operator.grounded[self]"], spec_hooks=_HK),
-    "models.pddl_state:State.copy": dict(prop="C03", assumed=True, params={"self": _ST}, returns=_ST,
-                                         ensures=["fresh(result)", "fresh(result.state_predicates)", "fresh(result.state_fluents)"], raises={}, modifies=[]),
+    # proved under C14 (fresh state, fresh dictionaries, fresh buckets and members, same content, nothing existing written)
+    "models.pddl_state:State.copy": dict(_C14_CONTRACTS["models.pddl_state:State.copy"], prop="C14"),
     "models.grounded_effect:GroundedEffect.antecedents_hold": dict(
         prop="C03", assumed=True, params={"self": ("ref", "GroundedEffect"), "state": _ST, "allow_inapplicable_actions": "bool"}, returns="bool",
         ensures=[], raises={"KeyError": "True"}, modifies=[]),
@@ -171,7 +172,7 @@ CONTRACTS = {
     OP + "apply": dict(
         prop="C03", params={"self": _OPR, "previous_state": _ST, "allow_inapplicable_actions": "bool", "skip_validation": "bool"},
         locals={"new_state": _ST}, returns=_ST,
-        requires=["allocated(previous_state)", "allocated(self.grounded_effects)"],
+        requires=["allocated(previous_state)", "allocated(self.grounded_effects)"] + [r.replace("self", "previous_state") for r in _STATE_WF],
         ensures=[
             # the successor is a new object, never the input state, and is not an initial state
             "fresh(result)", "result != previous_state", "not result.is_init",
